@@ -135,7 +135,7 @@ func (s *Sched) Step(i int) Outcome {
 	}
 	// wait for the step's outcome: the thread parks at the next yield point, returns, or its
 	// goroutine is seen waiting for a lock (runtime goroutine state) = blocked
-	deadline := time.Now().Add(4 * time.Second)
+	deadline := time.Now().Add(hangAfter)
 	for {
 		select {
 		case p := <-t.arrive:
@@ -178,7 +178,7 @@ func (s *Sched) Step(i int) Outcome {
 					o.dead = true // whatever waits behind a hung thread is lost too
 				}
 			}
-			return Outcome{Kind: "done", Resp: &Resp{Status: 598, Kind: "none", Panic: "thread neither parked, returned nor blocked on a lock within 4s (hang)"}}
+			return Outcome{Kind: "done", Resp: &Resp{Status: 598, Kind: "none", Panic: "thread neither parked, returned nor blocked on a lock within " + hangAfter.String() + " (hang); it is at: " + whereIs(gid)}}
 		}
 	}
 }
@@ -295,4 +295,27 @@ func (s *Sched) Drain() {
 			return
 		}
 	}
+}
+
+// hangAfter: how long a released thread may take to park, return or block before it is declared hung
+// (generous: a loaded machine must not turn a slow step into a hang)
+const hangAfter = 20 * time.Second
+
+// whereIs returns the top frames of a goroutine, for the hang report
+func whereIs(gid int64) string {
+	buf := make([]byte, 1<<20)
+	buf = buf[:runtime.Stack(buf, true)]
+	needle := []byte(fmt.Sprintf("goroutine %d [", gid))
+	i := bytes.Index(buf, needle)
+	if i < 0 {
+		return "(gone)"
+	}
+	rest := buf[i:]
+	if end := bytes.Index(rest, []byte("\n\n")); end >= 0 {
+		rest = rest[:end]
+	}
+	if len(rest) > 900 {
+		rest = rest[:900]
+	}
+	return string(rest)
 }
